@@ -7,6 +7,7 @@ import (
 	"verif/mc/doc"
 	"verif/mc/explore"
 	"verif/mc/gen"
+	"verif/mc/ref"
 )
 
 // uni11: names and values containing '-' and digits, repeated among siblings
@@ -14,6 +15,41 @@ import (
 func uni11(n int, vals []string, key string) []*doc.Tree {
 	return trees(fmt.Sprintf("U11-%d-%s", n, key), &doc.Universe{MinN: 0, MaxN: n, Names: []string{"a", "a-1", "a1", "b", "a-1-1"},
 		Attr: "rule", AttrNames: []string{"a", "a-1"}, Vals: vals})
+}
+
+// uniHuge: one parent with n children (n = 255, 256, 257, 300; names alternate
+// a/b, or all a), and one parent with 260 children that each have one child
+// element, one attribute and one text node.
+func uniHuge() []*doc.Tree {
+	uniMu.Lock()
+	if t, ok := uniCache["Huge"]; ok {
+		uniMu.Unlock()
+		return t
+	}
+	uniMu.Unlock()
+	var out []*doc.Tree
+	for _, n := range []int{255, 256, 257, 300} {
+		for _, alt := range []bool{true, false} {
+			var kids []doc.Spec
+			for i := 0; i < n; i++ {
+				name := "a"
+				if alt && i%2 == 1 {
+					name = "b"
+				}
+				kids = append(kids, doc.Spec{K: "e", N: name})
+			}
+			out = append(out, doc.Build([]doc.Spec{{K: "e", N: "b", C: kids}}))
+		}
+	}
+	var kids []doc.Spec
+	for i := 0; i < 260; i++ {
+		kids = append(kids, doc.Spec{K: "e", N: "a", A: []doc.AttrS{{N: "a", V: "1"}}, C: []doc.Spec{{K: "e", N: []string{"a", "b"}[i%2]}, {K: "t", V: "1"}}})
+	}
+	out = append(out, doc.Build([]doc.Spec{{K: "e", N: "b", C: kids}}))
+	uniMu.Lock()
+	uniCache["Huge"] = out
+	uniMu.Unlock()
+	return out
 }
 
 // addrPath is the absolute child/attribute path with [k] positions that
@@ -195,6 +231,24 @@ func c11Spaces(tier string) []*explore.Space {
 			return append(append([]*doc.Tree{}, stridedTrees(uniWide(5), 27)...), stridedTrees(uniDeep(6), 9)...)
 		}, bag),
 	}
+	// U7: sibling positions beyond one byte (a node key built from positions must
+	// not wrap): a parent with 255..300 children; contexts: root, parent, first child
+	var u7 []gen.Expr
+	kid := func(test string, k float64) gen.Step { return gen.Ch(test, gen.N(k)) }
+	for _, e := range []gen.Expr{
+		gen.B("|", relPath(gen.Ch("*")), relPath(gen.Ch("*"))), gen.B("|", relPath(gen.Ch("a")), relPath(gen.Ch("b"))),
+		gen.B("|", relPath(kid("*", 1)), relPath(kid("*", 257))), gen.B("|", relPath(kid("*", 257)), relPath(kid("*", 1))), gen.B("|", relPath(kid("*", 2)), relPath(kid("*", 258))),
+		gen.B("|", relPath(kid("a", 1)), relPath(kid("a", 129))), gen.B("|", relPath(kid("*", 44)), relPath(kid("*", 300))),
+		gen.B("|", gen.AbsP(gen.DSlash(), gen.Ch("a")), gen.AbsP(gen.DSlash(), gen.Ch("b"))), gen.B("|", gen.AbsP(gen.Ch("*"), gen.Ch("*")), gen.AbsP(gen.Ch("*"), gen.Ch("*"))),
+		gen.B("|", relPath(gen.Ch("*", gen.B("<", gen.F("position"), gen.N(3)))), relPath(gen.Ch("*", gen.B(">", gen.F("position"), gen.N(255))))),
+		gen.B("|", relPath(gen.Ch("*"), gen.Ch("*")), relPath(gen.Ch("*"), gen.Ch("*"))), gen.B("|", relPath(gen.Ch("*"), gen.At("*")), relPath(gen.Ch("*"), gen.At("*"))),
+		gen.B("|", relPath(gen.Ch("*"), gen.Ch("text()")), relPath(gen.Ch("*"), gen.Ch("node()"))),
+		&gen.Path{Steps: []gen.Step{gen.Ch("*"), {Seq: []gen.Step{gen.Ch("a"), gen.Ch("b")}}}},
+	} {
+		u7 = append(u7, e)
+	}
+	bagTop := &evalCfg{Prop: "C11", Ops: []string{"select", "evaluate"}, Mode: "bag", Skip: func(t *doc.Tree, ctx int, want ref.Value) bool { return ctx > 2 }}
+	sp = append(sp, exprSpace("U7xHuge", "unions over a parent with 255..300 children (sibling positions beyond one byte), and 260 parents with one child / attribute / text each", u7, uniHuge, bagTop))
 	if tier == "thorough" {
 		sp = append(sp, exprSpace("U2x11", "A | B pairs x the '-'/digit name universe (<=3)", u2, func() []*doc.Tree { return uni11(3, []string{"v-1", "v", "1", ""}, "mix4") }, bag))
 	}
@@ -204,7 +258,7 @@ func c11Spaces(tier string) []*explore.Space {
 func init() {
 	explore.Register(&explore.Property{
 		ID: "C11", Level: "exploration",
-		Rule: "U1 enumerates node PAIRS: for every document of a universe whose element/attribute names and values contain '-' and digits and repeat among siblings and cousins, and every ordered pair of nodes (x,y), the union of their absolute addresses must yield exactly {x,y} (1 node iff x=y); U2-U4 enumerate A|B over all pairs of 1-step paths, the sequence form p/(s1,s2[,s3]), A|B|C and (A|B)[P] on T(<=3) from every context; compared as a multiset (every node exactly once, order free) with the reference union; non-trivial = non-empty reference union; distinct = distinct expressions",
+		Rule: "U1 enumerates node PAIRS: for every document of a universe whose element/attribute names and values contain '-' and digits and repeat among siblings and cousins, and every ordered pair of nodes (x,y), the union of their absolute addresses must yield exactly {x,y} (1 node iff x=y); U2-U4 enumerate A|B over all pairs of 1-step paths, the sequence form p/(s1,s2[,s3]), A|B|C and (A|B)[P] on T(<=3) from every context; U5/U6: unions re-evaluated per candidate and merge-query operands; U7: unions over a parent with 255..300 children (sibling positions beyond one byte) and over 260 one-child parents, from the root / parent / first child; compared as a multiset (every node exactly once, order free) with the reference union; non-trivial = non-empty reference union; distinct = distinct expressions",
 		Assumptions:    []string{"hand-written reference evaluator", "lawful NodeNavigator", "bounded trees"},
 		Budget:         budget(90*time.Second, 25*time.Minute),
 		MinRefOutcomes: 2,
